@@ -59,7 +59,7 @@ def run(ctx):
     core_units.run(ctx, which="C19")
     ctx.monitor_rule = ("after every step, for the optimizer and each population member / grid back-end: the tracked current and best "
                         "(position, score) pairs are among the pairs evaluated so far; best never decreases; current never "
-                        "decreases for the four greedy variants; ties, non-finite scores, constraints (fallback moves); "
+                        "decreases for the four greedy variants; ties, non-finite scores (also long runs over tables that are 25-40% non-finite), constraints (fallback moves); "
                         "distinct by (optimizer, seed)")
     n_fast, n_slow = (90, 8) if ctx.quick else (720, 60)
     specs = sweep.sweep_specs(ctx, "c19", n_fast, n_slow, constraint=0.6, nonfinite=(0, 0, 0.15), ckinds=["parity", "band", "mask", "halfspace"])
@@ -72,6 +72,28 @@ def run(ctx):
         feas, desc = gen.gen_constraint(rng, spec["space"], kind=rng.choice(["parity", "band"]))
         spec["feasible"], spec["constraint_desc"] = feas, desc
         specs.append(spec)
+    # per optimizer a longer run over a table with a large non-finite part (-inf / NaN / +inf): the look-backs over the "valid" history
+    # (best of the last n neighbours, pattern positions, simplex / Powell bookkeeping) must keep positions and scores aligned
+    rng2 = ctx.sub_rng("c19-nonfinite")
+    lookback = ["PatternSearch", "HillClimbingOptimizer", "StochasticHillClimbingOptimizer", "RepulsingHillClimbingOptimizer", "SimulatedAnnealingOptimizer",
+                "RandomRestartHillClimbingOptimizer", "RandomAnnealingOptimizer", "DownhillSimplexOptimizer", "PowellsMethod", "PatternSearch", "PatternSearch"]
+    for rd in range(1 if ctx.quick else 4):
+        for name in gen.ALL + lookback + lookback:
+            slow = name in gen.SLOW
+            spec = dunit.general_spec(rng2, name, max_calls=1, metrics=0, sizes=(5, 8, 12), max_points=150, n_max=40, verbosity=False,
+                                      steps_api=True, ndims=2, nonfinite=rng2.choice([0.25, 0.4]))
+            if rng2.random() < 0.5:
+                # a contiguous penalty region (score -inf / NaN beyond a diagonal) instead of scattered non-finite points
+                dims_ = [len(v) for v in spec["space"].values()]
+                cut = int(sum(dims_) * rng2.choice([0.45, 0.6]))
+                pen = rng2.choice([-math.inf, -math.inf, math.nan])
+                spec["table"] = {p_: ((pen, None) if sum(p_) > cut else (-float((p_[0] - dims_[0] + 1) ** 2 + (p_[1] - dims_[1] + 1) ** 2), None)) for p_ in spec["table"]}
+            if name in ("GeneticAlgorithmOptimizer", "DifferentialEvolutionOptimizer"):
+                spec["cfg"] = {k: v for k, v in (spec["cfg"] or {}).items() if k != "population"}
+            spec["calls"][0]["n_iter"] = 14 if slow else 45
+            spec["calls"][0]["memory"] = False
+            spec["feasible"] = None
+            specs.append(spec)
     # per optimizer two longer runs with hyper-parameters at / beyond the ends of their ranges (rand_rest_p > 0 in part of them)
     specs += sweep.extreme_specs(ctx, "c19", rounds=(1 if ctx.quick else 4))
     for spec in specs:
